@@ -15,6 +15,9 @@ COL = re.compile(r"(@\d+):-?\d+")      # columns are not part of any property: c
 NOISE_ALPHABET = list("ab_x.e019()[],;+-*/%<>=!\"'\\# \t\r\n#fnrtTRUE") + ["é", " ", "\U0001F600"]
 
 
+_hang = {"n": 0, "skip": 0}
+
+
 def impl_outcome(src):
     """parse twice on the implementation; returns (outcome tuple, bad_patterns)"""
     from ckl.lexer import Lexer
@@ -22,13 +25,23 @@ def impl_outcome(src):
     from ckl.errors import CklSyntaxError
     outs = []
     bad = []
+    # a tree on which parsing hangs would otherwise cost 4 s of CPU per hanging text: once this worker has seen a few time-outs the
+    # bound shrinks, and after many the remaining texts are only sampled (the verdict - a concrete hanging text - is already there)
+    limit = 2 if _hang["n"] < 4 else 0.5
+    if _hang["n"] >= 40:
+        _hang["skip"] += 1
+        if _hang["skip"] % 50:
+            return [('skipped',), ('skipped',)], bad
     for attempt in range(2):
         try:
-            with core.time_limit(2):
+            with core.time_limit(limit):
                 node = parse_script(src, "f")
                 outs.append(('ast', COL.sub(r"\1", astdump.dump(node, True))))
         except core.Timeout:
             outs.append(('timeout',))
+            outs.append(('timeout',))
+            _hang["n"] += 1
+            return outs, bad
         except CklSyntaxError as e:
             ok = isinstance(e.msg, str) and e.msg != "" and e.pos is not None and isinstance(getattr(e.pos, "line", None), int) and e.pos.line >= 1
             outs.append(('syn', e.pos.line if e.pos is not None else None, str(e.msg).startswith("Unexpected end of input"), ok, str(e.msg)[:80]))
@@ -167,6 +180,13 @@ def build_inputs(ctx):
         for c in "nrtx\\0abfuU'\"#{} \n":
             add(q + "\\" + c + q, "escape-cover")
             add(q + "z\\" + c, "escape-cover")
+        # escape letters followed by the bodies other languages give them (braced / fixed-width / octal code points, in and out of
+        # range, empty, signed, non-hex): whatever the scanner makes of them, it must be a token or a syntax error
+        for c in "xuUNo0c":
+            for body in ("{0}", "{41}", "{1F600}", "{10FFFF}", "{110000}", "{FFFFFFFF}", "{" + "9" * 30 + "}", "{}", "{zz}", "{-1}", "{+41}", "{4 1}", "{41",
+                         "0041", "0001F600", "00110000", "FFFFFFFF", "777", "400", "{LATIN SMALL LETTER A}", "[41]", "(41)"):
+                add(q + "a\\" + c + body + "b" + q, "escape-cover")
+                add(q + "\\" + c + body, "escape-cover")
     # nesting up to depth 40
     for d in (1, 5, 10, 20, 30, 40):
         for _ in range(3):
@@ -201,12 +221,14 @@ def run(ctx):
         a, b = outs
         rp = {"op": "parse", "src": s, "kind": kind}
         ctx.count("outcome_" + a[0])
+        if a[0] == 'skipped':
+            continue        # only on a tree where many texts already hang (each reported below)
         if a != b:
             ctx.violation("oracle", f"the same text gives two outcomes: {a[:3]} / {b[:3]}: {s!r}", rp)
         if a[0] == 'host':
             ctx.violation("oracle", f"parsing {s[:120]!r} raises a host exception {a[1]}", rp)
         elif a[0] == 'timeout':
-            ctx.violation("oracle", f"parsing {s[:120]!r} does not return within 2 s", rp)
+            ctx.violation("oracle", f"parsing {s[:120]!r} does not return within 2 s of CPU time", rp)
         elif a[0] == 'deep' and nesting_measure(s) < 25:
             # the host's recursion limit is only an excuse for deeply nested text
             ctx.violation("oracle", f"parsing {s[:120]!r} exhausts the host stack although the text is not deeply nested", rp)
